@@ -269,6 +269,8 @@ class Report:
         self.assumptions = []
         self.extra = {}
         self.kf = [k for k in load_known_findings() if k["property"] == pid]
+        for old in glob.glob(f"{ROOT}/replays/{pid}-{seed}-*.json"):
+            os.remove(old)
         self._distinct = set()
 
     def count(self, n=1):
